@@ -122,6 +122,16 @@ PROPS = {
         "rule": "item trees over {list, int (boundary pool + random), bool, registered instruction, parser-producible and odd names} (exact class), the same plus floats incl. non-finite, subnormal and boundary values (print-parse-print class), arbitrary items, and trees emitted by CodeGenerator::random_code: Item::to_string compared with the model's print, the text parsed back by the real parser and by the model, parse(print t) = t resp. print(parse(print t)) = print t evaluated on the implementation's outcome; non-trivial = the item is in one of the two round-trip classes",
         "assumptions": ["FloatPrintStable (fmt3 (parse (fmt3 x)) = fmt3 x) and the white-space splitting of printed text are character-level facts about std formatting/parsing: hypotheses of the Lean theorem, validated on every generated tree by the correspondence check"],
     },
+    "C09": {
+        "scenarios": lambda tier, q: [
+            {"name": "vecgrid", "args": []},
+            {"name": "exec", "args": [exact(q("scope C09")), "300" if tier == "quick" else "3000"]},
+        ],
+        "signature": sig_exec,
+        "rule": "the nine element-wise instructions on an exhaustive grid: length pairs (0..6)^2 (thorough (0..9)^2), equal and unequal, offsets -8..8 plus i32::MIN, MIN+1, MAX-1, MAX, elements from the boundary pools (extreme ints, non-finite floats, zero divisors); all 53 non-random vector instructions by NAME on generated states (empty and non-empty vectors, clamped indices); element-wise results compared with the README rule (overlapSpec), SORT with ordered-permutation; non-trivial = the state changed",
+        "exhaustive": True,
+        "assumptions": ["float element arithmetic is pinned up to the opaque Float32 operations"],
+    },
     "C01": {
         "scenarios": lambda tier, q: [
             {"name": "exec", "args": ["*"]},
